@@ -161,8 +161,28 @@ func bit(b bool) byte {
 	return '0'
 }
 
+// canonMemo remembers the canonical form of reply bytes already seen in the
+// current group: the three worlds mostly write identical bytes for the
+// history and for the probes, and canonReply is a pure function of its
+// arguments. Reset per group (resetCanonMemo).
+var canonMemo = map[string]Canon{}
+
+func resetCanonMemo() { clear(canonMemo) }
+
 // canonReply canonicalises what one serve wrote.
 func canonReply(wrote bool, writes int, raw []byte, panicv any) Canon {
+	if wrote && writes == 1 && panicv == nil {
+		if c, ok := canonMemo[string(raw)]; ok {
+			return c
+		}
+		c := canonReplyUncached(wrote, writes, raw, panicv)
+		canonMemo[string(raw)] = c
+		return c
+	}
+	return canonReplyUncached(wrote, writes, raw, panicv)
+}
+
+func canonReplyUncached(wrote bool, writes int, raw []byte, panicv any) Canon {
 	c := Canon{Wrote: wrote, Writes: writes, Len: len(raw)}
 	if panicv != nil {
 		c.Panic = fmt.Sprint(panicv)
